@@ -311,7 +311,16 @@ class Gen(object):
         return m
 
     def gen_state(self, apps):
-        """Random project state over the given app labels."""
+        """Random project state over the given app labels (retries until
+        the draw is valid by the generator's own rules)."""
+        for _ in range(50):
+            try:
+                return self._gen_state(apps)
+            except SpecError:
+                continue
+        raise SpecError('could not draw a valid state')
+
+    def _gen_state(self, apps):
         rng = self.rng
         st = {'apps': {}}
         refs = []
